@@ -23,6 +23,7 @@ pub struct Case {
     /// 0: reset; exit   1: reset; reset; exit   2: reset; <more>; reset; exit   3: reset; quit (vs fresh run)
     /// 4: reset; <more>; exit  vs a fresh session <more>; exit
     /// 5: reset; goto <PC before the reset>; <more>; exit  vs a fresh session goto ..; <more>; exit
+    /// 6: <history>; reset; <history>; exit  vs a fresh session <history>; exit (the history itself, once more)
     pub variant: u8,
     /// the history ends with `move <code location> xF025; continue`: when `reset` is issued the
     /// debugger may be paused on a HALT that is not in the loaded image
@@ -127,7 +128,7 @@ pub fn judge_case(c: &Case) -> Obs {
         (c.cmds.iter().map(make).collect(), c.more.iter().map(make).collect())
     };
     let (mut cmds, mut more) = (cmds, more);
-    let variant = c.variant % 6;
+    let variant = c.variant % 7;
     if variant >= 4 {
         // breakpoints are debugger state, not machine state: whether `reset` keeps them is not
         // stated, so these histories leave them alone
@@ -166,7 +167,8 @@ pub fn judge_case(c: &Case) -> Obs {
         2 => format!("reset\n{}reset\nexit", nl(&text(&more))),
         3 => "reset\nquit".to_string(),
         4 => format!("reset\n{}exit", nl(&text(&more))),
-        _ => format!("reset\ngoto <PC before the reset>\n{}exit", nl(&text(&more))),
+        5 => format!("reset\ngoto <PC before the reset>\n{}exit", nl(&text(&more))),
+        _ => format!("reset\n{}exit", nl(&prefix)),
     };
     let script_b = format!("{}{tail}", nl(&prefix));
     let shown = show_case(&p, &script_b, &[]);
@@ -182,7 +184,7 @@ pub fn judge_case(c: &Case) -> Obs {
     // (always through `--command`: a history may write an input trap into memory and run it, and
     // nothing here predicts that - with the script on standard input the program would read it)
     let run_lace = |p: &Prog, script: &str, input: &[u8], fuel: u64| run_lace_mode(p, script, input, fuel, minimal);
-    obs.label(["variant-reset", "variant-reset-twice", "variant-reset-history-reset", "variant-reset-then-run", "variant-reset-then-session", "variant-reset-revisit-then-session"][variant as usize]);
+    obs.label(["variant-reset", "variant-reset-twice", "variant-reset-history-reset", "variant-reset-then-run", "variant-reset-then-session", "variant-reset-revisit-then-session", "variant-reset-then-the-history-once-more"][variant as usize]);
 
     // Session A: the history alone - what did it change?
     let a = run_lace(&p, &script_a, &[], FUEL);
@@ -214,7 +216,7 @@ pub fn judge_case(c: &Case) -> Obs {
     let script_b = script_b.replace("goto <PC before the reset>", &revisit);
     if variant >= 4 {
         // history; reset; [goto X]; <more>; exit  ==  (output of the history) ++ fresh session [goto X]; <more>; exit
-        let script_c = format!("{}{}exit", if variant == 5 { nl(&revisit) } else { String::new() }, nl(&text(&more)));
+        let script_c = if variant == 6 { script_a.clone() } else { format!("{}{}exit", if variant == 5 { nl(&revisit) } else { String::new() }, nl(&text(&more))) };
         let fresh = run_lace(&p, &script_c, &[], FUEL);
         let Some(of) = outcome_of(&mut obs, "C12", &fresh, &shown) else { return obs };
         if of.stop != Stop::Returned {
@@ -291,7 +293,7 @@ pub fn judge_case(c: &Case) -> Obs {
 }
 
 fn cases() -> impl Strategy<Value = Case> {
-    (proggen::prog_spec(20), prop::collection::vec(raw_cmd(), 1..12), prop::collection::vec(raw_cmd(), 0..6), 0u8..6, prop::bool::weighted(0.15), crate::pick::opt(0.25, raw_cmd()), crate::pick::opt(0.2, (any::<u16>(), any::<u16>())))
+    (proggen::prog_spec(20), prop::collection::vec(raw_cmd(), 1..12), prop::collection::vec(raw_cmd(), 0..6), 0u8..7, prop::bool::weighted(0.15), crate::pick::opt(0.25, raw_cmd()), crate::pick::opt(0.2, (any::<u16>(), any::<u16>())))
         .prop_map(|(spec, mut cmds, more, variant, quiet, plant, exchange)| {
             if quiet {
                 cmds.truncate(4);
@@ -305,7 +307,7 @@ impl Prop for C12 {
         "C12"
     }
     fn rule(&self) -> &'static str {
-        "ProgGen programs (incl. self-modifying stores, stores below the origin, into the stack area and to 0xFFFF through pointers) x histories of 1-11 commands over {move to any register / any memory location, goto, eval of arbitrary instructions incl. stores and jumps, step, step into k, continue, break add/remove, reset, and (a quarter) the inspection commands print / registers / assembly / break list / help / echo}, half of them in the normal (non-minimal) output mode; 15% are 'quiet' histories - stores through R7 or through registers that are put back, PC moves that are undone - after which every register, the PC and the condition code already equal their load-time values and only memory outside the program differs; followed by: reset | reset; reset | reset; <history>; reset | reset; quit | reset; <history> | reset; goto <where the PC was before the reset>; <history> (the last two without breakpoint commands; a fifth of the histories also exchange the contents of two words of the image (a change that leaves every sum, xor or count of the memory as it was); a quarter of all histories end with `move <code location> xF025; continue`, so that the reset may be issued while paused on a HALT that the loaded image does not have). \
+        "ProgGen programs (incl. self-modifying stores, stores below the origin, into the stack area and to 0xFFFF through pointers) x histories of 1-11 commands over {move to any register / any memory location, goto, eval of arbitrary instructions incl. stores and jumps, step, step into k, continue, break add/remove, reset, and (a quarter) the inspection commands print / registers / assembly / break list / help / echo}, half of them in the normal (non-minimal) output mode; 15% are 'quiet' histories - stores through R7 or through registers that are put back, PC moves that are undone - after which every register, the PC and the condition code already equal their load-time values and only memory outside the program differs; followed by: reset | reset; reset | reset; <history>; reset | reset; quit | reset; <history> | reset; goto <where the PC was before the reset>; <history> | reset; the history itself once more (the last three without breakpoint commands; a fifth of the histories also exchange the contents of two words of the image (a change that leaves every sum, xor or count of the memory as it was); a quarter of all histories end with `move <code location> xF025; continue`, so that the reset may be issued while paused on a HALT that the loaded image does not have). \
          Oracle: after the final reset the full snapshot (8 registers, PC, CC, 65,536 words) equals the snapshot taken right after loading; for `reset; quit` the exit status and final state equal a fresh plain run and the output equals (output of the history) ++ (output of a fresh run); for `reset; [goto X;] <history>` the output, the return to the prompt and the final state equal those of the same commands in a fresh session. \
          Non-trivial (measured on a twin session that ends before the reset): the history changed >= 1 memory word outside the stack page, >= 1 register and the PC. Distinct = hash(source, script)."
     }
